@@ -225,15 +225,23 @@ _CMPOPS = {
     ast.Gt: operator.gt, ast.GtE: operator.ge, ast.Is: operator.is_, ast.IsNot: operator.is_not,
     ast.In: lambda a, b: a in b, ast.NotIn: lambda a, b: a not in b,
 }
+def _isinstance(obj, cls):
+    if isinstance(cls, tuple):
+        return any(_isinstance(obj, c) for c in cls)
+    if hasattr(cls, 'instancecheck'):
+        return cls.instancecheck(obj)
+    return isinstance(obj, cls)
+
+
 _BUILTINS = {
     'tuple': tuple, 'list': list, 'dict': dict, 'set': set, 'frozenset': frozenset,
     'sorted': sorted, 'len': len, 'range': range, 'min': min, 'max': max, 'sum': sum,
     'ord': ord, 'chr': chr, 'int': int, 'str': str, 'bytes': bytes, 'bytearray': bytearray,
     'divmod': divmod, 'abs': abs, 'bool': bool, 'float': float, 'any': any, 'all': all,
     'reversed': lambda x: list(reversed(x)), 'enumerate': lambda *a, **k: list(enumerate(*a, **k)),
-    'zip': lambda *a: list(zip(*a)), 'isinstance': isinstance, 'iter': iter, 'next': lambda it, *d: next(it if hasattr(it, '__next__') else iter(it), *d),
+    'zip': lambda *a: list(zip(*a)), 'isinstance': _isinstance, 'iter': iter, 'next': lambda it, *d: next(it if hasattr(it, '__next__') else iter(it), *d),
     'None': None, 'True': True, 'False': False, 'round': round, 'repr': repr, 'hex': hex, 'vars': vars,
-    'namedtuple': collections.namedtuple,
+    'namedtuple': collections.namedtuple, 'property': property,
     'map': lambda f, *its: [f(*a) for a in zip(*its)], 'filter': lambda f, it: [x for x in it if (f(x) if f is not None else x)],
     'callable': callable, 'format': format, 'hash': hash, 'bin': bin, 'pow': pow, 'slice': slice, 'type': type, 'object': object,
     'ValueError': ValueError, 'TypeError': TypeError, 'KeyError': KeyError, 'IndexError': IndexError,
@@ -349,8 +357,14 @@ def ev(node, env):
         for typ, names in _SAFE_METHODS.items():
             if isinstance(base, typ) and node.attr in names:
                 return getattr(base, node.attr)
-        if isinstance(base, tuple) and hasattr(type(base), '_fields') and node.attr in type(base)._fields:
+        if isinstance(base, tuple) and hasattr(type(base), '_fields') and (node.attr in type(base)._fields or node.attr in ('_replace', '_asdict', '_fields')):
             return getattr(base, node.attr)
+        if base is tuple and node.attr == '__new__':
+            return tuple.__new__
+        if isinstance(base, type) and hasattr(base, '_classval') and (node.attr in ('__new__', '_make', '_fields') or not node.attr.startswith('_')) and hasattr(base, node.attr):
+            return getattr(base, node.attr)
+        if hasattr(type(base), '_classval') and (not node.attr.startswith('__')) and hasattr(base, node.attr):
+            return getattr(base, node.attr)      # an instance of an interpreted tuple subclass of the repository
         if not hasattr(base, node.attr) and isinstance(base, (int, str, bytes, float, tuple, list, dict, type(None), bool)):
             raise PyRaise(AttributeError, node, f'{type(base).__name__!r} object has no attribute {node.attr!r}')
         raise Unknown(f'attribute .{node.attr} of {type(base).__name__} not in whitelist')
@@ -643,6 +657,19 @@ def module_consts(forest, modname, _stack=()):
                 except Unknown as u:
                     env.pop(name, None)
                     failed[name] = str(u)
+            elif len(st.targets) == 1 and isinstance(st.targets[0], (ast.Tuple, ast.List)) and all(isinstance(e, ast.Name) for e in st.targets[0].elts):
+                names = [e.id for e in st.targets[0].elts]      # a, b, c = range(3)
+                try:
+                    vals = list(ev(st.value, env))
+                    if len(vals) != len(names):
+                        raise Unknown('unpack arity')
+                    for n_, v_ in zip(names, vals):
+                        env[n_] = v_
+                        failed.pop(n_, None)
+                except (Unknown, TypeError) as u:
+                    for n_ in names:
+                        env.pop(n_, None)
+                        failed[n_] = str(u)
         elif isinstance(st, ast.Delete):
             for tgt in st.targets:
                 if isinstance(tgt, ast.Name):
